@@ -45,7 +45,14 @@ def run(chk):
     for wi in range(nworlds):
         rng.seed("%d/c03-1/%d" % (chk.seed, wi))      # every world has its own stream: families do not disturb each other
         modelled = rng.random() < 0.6
-        wj, sph = area_world(rng) if modelled else any_world(rng)
+        surface_family = wi % 10 in (5, 6)
+        if surface_family:
+            # forced surface temperature, spherical (5) and Cartesian (6): every query of this world sits on the ladder of tiny depths
+            modelled = True
+            wj, sph = area_world(rng, spherical=(wi % 10 == 5))
+            wj["force surface temperature"] = True
+        else:
+            wj, sph = area_world(rng) if modelled else any_world(rng)
         if rng.random() < 0.15:
             wj["features"] = []
         if wi % 10 in (3, 7):
@@ -56,13 +63,25 @@ def run(chk):
         for qi in range(10):
             ps = prop_list(rng)
             pos, d = query3d(rng, wj, sph)
-            if rng.random() < 0.5:
+            if (rng.random() < 0.5 and not surface_family) or (surface_family and qi % 2 == 0):
                 # far away from everything, special depths
-                d = rng.choice([-1234.5, 0.0, 1e-17, 4e-16, 1.0, 1e6, 3e5])
+                d = rng.choice([-1234.5, 0.0, 1e-17, 4e-16, 1.0, 1e6, 3e5, None, None, None]) if not surface_family else None
+                if d is None:
+                    # the threshold of "at the surface" is |depth| < 2 eps, whatever the coordinate system and the size of the model:
+                    # a ladder of tiny depths on both sides of it, and the threshold itself
+                    d = rng.choice([4.440892098500626e-16, 4.440892098500625e-16, rng.choice([-1, 1]) * 10.0 ** rng.uniform(-16.5, -1.0)])
                 if sph:
                     pos = cart_point(True, rng.uniform(-179, 179), rng.uniform(-85, 85), d, el.radius)
                 else:
                     pos = cart_point(False, rng.uniform(2e6, 5e6) * rng.choice([-1, 1]), rng.uniform(2e6, 5e6), d)
+            elif qi % 5 == 4 or surface_family:
+                # the same ladder over the features (where the forced surface temperature competes with what the features paint)
+                d = rng.choice([-1, 1]) * 10.0 ** rng.uniform(-16.5, -1.0)
+                if sph:
+                    r0 = math.sqrt(sum(c * c for c in pos))
+                    pos = tuple(c * ((el.radius - d) / r0) for c in pos) if r0 > 0 else pos
+                else:
+                    pos = (pos[0], pos[1], TOP - d)
             ib = cs.p3(slot, pos, d, ps)
             it = cs.p3(slot, pos, d, [[4, 0, 0]])
             plan.append((ib, it, slot, d, ps))
